@@ -367,4 +367,53 @@ def stepOld (s : State) : Act → State
 
 def runOld (s : State) (acts : List Act) : State := acts.foldl stepOld s
 
+/-! ### a parked `Publish` and the memory level -/
+
+theorem splitSlow_append {slow : Notifier} : ∀ {ds a b : List Delivery},
+    splitSlow slow ds = some (a, b) → a ++ b = ds := by
+  intro ds
+  induction ds with
+  | nil => intro a b h; simp [splitSlow] at h
+  | cons d ds ih =>
+    intro a b h
+    unfold splitSlow at h
+    split at h
+    · simp at h; obtain ⟨rfl, rfl⟩ := h; rfl
+    · split at h
+      · rename_i a' b' heq
+        simp at h; obtain ⟨rfl, rfl⟩ := h
+        simp [ih heq]
+      · simp at h
+
+/-- a parked publish that is released with the table unchanged makes exactly the calls of an
+    unparked one: nothing is lost or repeated by parking as such -/
+theorem pubUntilParked_complete (t : Table) (m : Msg) (slow : Notifier) : ∀ keys : List Key,
+    (pubUntilParked t m slow keys).1 ++
+      (match (pubUntilParked t m slow keys).2 with
+       | none => []
+       | some p => pubResume t m p) = deliveries t keys m := by
+  intro keys
+  induction keys with
+  | nil => simp [pubUntilParked, deliveries]
+  | cons k ks ih =>
+    unfold pubUntilParked
+    simp only
+    split
+    · rename_i a b heq
+      simp only [pubResume, deliveries, List.flatMap_cons]
+      rw [← List.append_assoc, splitSlow_append heq]
+    · simp only [deliveries, List.flatMap_cons, List.append_assoc]
+      rw [ih]
+      rfl
+
+theorem view_append_lt (m : Arrays) (c : List Notifier) (p : Slice) (hp : p.arr < m.length) :
+    view (m ++ [c]) p = view m p := by
+  unfold view
+  simp [List.getD, List.getElem?_append_left hp]
+
+theorem view_append_new (m : Arrays) (c : List Notifier) :
+    view (m ++ [c]) ⟨m.length, c.length⟩ = c := by
+  unfold view
+  simp [List.getD]
+
 end Aurora.Subscribe
